@@ -90,6 +90,7 @@ type Exec struct {
 	loops  map[*ssa.BasicBlock]int
 
 	solver      *SolverProc
+	solverNew   *SolverProc
 	importer    *importer
 	stubs       map[string]string
 	cfg         map[string]string // harness-provided configuration (vConfig)
@@ -104,6 +105,16 @@ type Exec struct {
 	concrete    map[string]*big.Int // translator-validation mode: fixed input values
 	streams     map[string]*streamState
 	stepLimit   int64
+	cuts        map[string]*cutSpec
+	stubReal    map[*Term]*Term
+	stubOrder   []*Term
+}
+
+type cutSpec struct {
+	loop     int
+	hook     Value
+	arrivals int
+	active   bool
 }
 
 type InputVar struct {
@@ -143,6 +154,24 @@ func (x *Exec) addPath(c *Term) {
 	}
 	x.path = append(x.path, c)
 	x.ts.Refine(c)
+}
+
+// provesNow asks the solver whether c holds on the current path (unsat of path ∧ ¬c).
+func (x *Exec) provesNow(c *Term) bool {
+	x.feasQueries++
+	be := BackendBV
+	if x.cfg["backend"] == "int" || x.cfg["backend"] == "int,bv" {
+		be = BackendINT
+	}
+	q := BuildQuery(x.ts, be, "proves", coneOfInfluence(x.pathCond(), c, x.inputs), c, nil, 0)
+	if q.Err != nil {
+		return false
+	}
+	res, _ := x.solver.RunScript(q.Script, nil, 10000)
+	if res != "unsat" && x.solverNew != nil {
+		res, _ = x.solverNew.RunScript(q.Script, nil, 10000)
+	}
+	return res == "unsat"
 }
 
 // feasible asks the solver whether path ∧ c is satisfiable (unknown counts as feasible).
@@ -584,6 +613,16 @@ func (x *Exec) run(fr *frame, blk, prev, stop *ssa.BasicBlock, phisSet bool) run
 			panic(specAbort{"loop inside speculation"})
 		}
 		if fr.info.loopHeader[blk.Index] {
+			if cs, ok := x.cuts[fr.fn.Name()]; ok && !cs.active && fr.info.outerLoopIndex(blk.Index) == cs.loop {
+				if !phisSet && prev != nil {
+					x.setPhis(fr, blk, x.evalPhis(fr, blk, prev))
+					phisSet = true
+				}
+				cs.active = true
+				x.callValue(cs.hook, []Value{x.ts.BV(uint64(cs.arrivals), 64)}, nil)
+				cs.active = false
+				cs.arrivals++
+			}
 			x.loops[blk]++
 			if x.loops[blk] > x.eng.LoopLimit {
 				panic(&GoPanic{Msg: fmt.Sprintf("VERIF-UNWIND: loop at %s block %d exceeds %d iterations", fr.fn, blk.Index, x.eng.LoopLimit), Stack: x.stackTrace()})
